@@ -115,6 +115,19 @@ def _worker(mod, tier, seed, w, nw, deadline, conn):
             out["last_idx"] = idx
             keep = len(out["samples"]) < 2 and w == 0
             srec = []
+            if isinstance(res, dict):  # bulk result of a case that is itself an exploration (E2/E3)
+                out["evaluations"] += res["evaluations"]
+                out["outcomes"].update(res["outcomes"])
+                out["nontrivial"] += res["nontrivial"]
+                out["sigs"] |= res.get("sigs", set())
+                out["extra"].update(res.get("extra", {}))
+                for viol in res.get("violations", []):
+                    out["nviol"] += 1
+                    if len(out["violations"]) < MAX_VIOL_PER_WORKER:
+                        out["violations"].append({"case": case, "violation": viol})
+                if keep:
+                    out["samples"].append({"case": case, "executions": res.get("sample", [])})
+                continue
             for r in res:
                 outcome, nontriv, sig, viol = r[0], r[1], r[2], r[3]
                 if len(r) > 4 and r[4]:
@@ -146,6 +159,7 @@ def _worker(mod, tier, seed, w, nw, deadline, conn):
 def explore(mod, tier, seed):
     """run the exploration; returns merged statistics"""
     t0 = time.time()
+    os.environ["PV_TIER"] = tier
     nw = nworkers()
     deadline = t0 + budget_s(tier)
     ctx = mp.get_context("fork")
